@@ -1,6 +1,6 @@
 (* C08 — State matrices stay well-formed under every operator.
    Only statements, each closed by [exact], followed by Print Assumptions. *)
-From Coq Require Import List ZArith.
+From Coq Require Import List ZArith QArith Qcanon Lia.
 From EPG Require Import Scalar QI State Ops Views WfProof Exchange WfExt ShiftND PruneProofs.
 From EPG.Model Require Import Diffusion.
 Import ListNotations.
@@ -98,6 +98,23 @@ Theorem C08_nd_shift_fz_mirror_partial (S : ScalOps) (L : ScalLaws S) (p : plan)
   fz (nth (length (pk p) - 1 - j) (relocate p amps) t0) = kconj (fz (nth j (relocate p amps) t0)).
 Proof. exact (relocate_fz_mirror S L p amps j). Qed.
 Print Assumptions C08_nd_shift_fz_mirror_partial.
+
+(* non-vacuity of the two hypotheses of C08_nd_shift_fz_mirror_partial: a three-state plan with a conjugate-symmetric Z *)
+Example C08_fz_mirror_nonvacuous :
+  let p := mkPlan [[-1]; [0]; [1]]%Z [Some 0; Some 1; Some 2]%nat [Some 1; Some 2; None]%nat in
+  let amps : list (triple QIops) :=
+    [@mk3 QIops (qr 0 1) (qr 0 1) (qi 1 2 1 3); @mk3 QIops (qr 0 1) (qr 0 1) (qr 1 1); @mk3 QIops (qr 0 1) (qr 0 1) (qi 1 2 (-1) 3)] in
+  let ps := opairs (pL p) (map (@fz QIops) amps) in
+  NoDup (map fst ps) /\
+  (forall a v, In (a, v) ps -> (a < length (pk p))%nat /\ In ((length (pk p) - 1 - a)%nat, @kconj QIops v) ps).
+Proof.
+  cbv zeta. cbn [pL pk opairs map fz length fst]. split.
+  - repeat (constructor; [simpl; intuition discriminate|]). constructor.
+  - intros a v H. cbn [In] in H. destruct H as [H|[H|[H|[]]]]; inversion H; subst; clear H; (split; [simpl; lia|]); cbn [Nat.sub In].
+    + right; right; left. f_equal; try (apply injective_projections; apply Qc_is_canon; vm_compute; reflexivity).
+    + right; left. f_equal; try (apply injective_projections; apply Qc_is_canon; vm_compute; reflexivity).
+    + left. f_equal; try (apply injective_projections; apply Qc_is_canon; vm_compute; reflexivity).
+Qed.
 
 (* non-vacuity: a program with D whose side conditions hold, on the executed instance *)
 Example C08_nonvacuous_ext :
